@@ -67,7 +67,7 @@ def run(pid, tier):
     obs = pc.execute(rep, scen, 'default', 'C08')
     refs = [obs[j] for j in refidx]
     pc.validate(rep, 'C08', scen, obs, 'C08-default', refs=refs, kindfn=kind, fields=pc.FIELDS['C08'])
-    pc.event_traces(rep, 'C08', scen[::max(1, len(scen) // 3000)], 'C08')     # hook-event traces against the input-loop state machine
+    pc.event_traces(rep, 'C08', scen[::max(1, len(scen) // (12000 if tier == 'quick' else 100000))], 'C08')     # hook-event traces against the input-loop state machine
     nt = [i for i, (st, ch) in enumerate(meta) if cuts_token(st, ch)]
     rep.cov['distinct_nontrivial'] = len(set(json.dumps(scen[i]['chunks']) for i in nt))
     rep.cov['streams'] = len(streams)
